@@ -24,3 +24,4 @@ def rules(ctx):
     S.c08_r4_refused_after_failure(ctx)
     S.c01_r8_open_recovery(ctx)
     S.survey_residue_rules(ctx)
+    S.restore_commit_rules(ctx)
